@@ -8,6 +8,8 @@ Three layers, all run on every check:
         permute.dimensions_csr / dimensions_dense,
         Dimensions._get_tensor_perm / _get_tensor_shape,
         expand_operator (new_order + permute), tensor_swap (flat index map),
+        partial_transpose (dense and sparse method), the reshuffle permutation
+        lists (spy on Qobj.permute; incl. the private Compound branch),
         tensor() of square factors (Kronecker model of the product theorem)
      and a tiny translator (T) re-reads `contract_at` of
      tensor._tensor_contract_single and checks it is the modelled expression
@@ -496,6 +498,68 @@ def corr_cases(dist, rng, scale):
                           "impl": impl, "nontrivial": True, "info": {"dims": D, "kind": kind}})
             bump("reshuffle_tos:" + kind)
 
+    # ---- H. the Compound branch of the private _to_tensor_of_super (reshuffle()
+    #         never sends a Compound there; called directly, tie only)
+    from qutip.core.superoperator import _to_tensor_of_super
+
+    def spy_private(q):
+        rec = {}
+        orig = Qobj.permute
+
+        def spy(self, order):
+            rec.setdefault("order", order)
+            return orig(self, order)
+        Qobj.permute = spy
+        try:
+            _to_tensor_of_super(q)
+            return ("ok", [int(x) for part in rec.get("order") for x in part])
+        except Exception as e:
+            return ("err", type(e).__name__)
+        finally:
+            Qobj.permute = orig
+
+    for _ in range(6 * scale):
+        ds = []
+        for _k in range(rng.randint(2, 3)):
+            ds.append([rng.choice([2, 2, 3]) for _ in range(rng.randint(1, 3))])
+        while prod([prod(d) for d in ds]) > 8:
+            ds = [d[:1] for d in ds]
+            if prod([prod(d) for d in ds]) > 8:
+                ds = ds[:2]
+        ns = [len(d) for d in ds]
+        qs = [Qobj(np.zeros((prod(d) ** 2,) * 2), dims=[[d, d], [d, d]]) for d in ds]
+        note_inflight({"op": "private_tos", "params": {"factor_dims": ds}})
+        impl = spy_private(qutip.tensor(*qs))
+        cases.append({"kind": "private_tos_compound", "expr": "tos_compound_order 0 %s" % cnats(ns),
+                      "impl": impl, "nontrivial": True, "info": {"factor_dims": ds}})
+        bump("private_tos_compound")
+
+    # ---- I. partial_transpose, dense and sparse method
+    for _ in range(12 * scale):
+        d = rand_dims(rng, 4, 20)
+        if all(x == 1 for x in d):
+            continue
+        Nn = prod(d)
+        mask = [rng.randint(0, 1) for _ in d]
+        M = rand_mat(rng, Nn, Nn, rng.choice([0.3, 0.7]))
+        fmt = rng.choice(["CSR", "Dense", "Dia"])
+        q = Qobj(to_np(M), dims=[d, d]).to(fmt)
+        for method in ("dense", "sparse"):
+            note_inflight({"op": "partial_transpose",
+                           "params": {"dims": d, "mask": mask, "matrix": M, "fmt": fmt}})
+            try:
+                out = qutip.partial_transpose(q, mask, method=method)
+                impl = ("ok", from_np(out.full()))
+            except Exception as e:
+                impl = ("err", type(e).__name__)
+            expr = ("to_dense G g0 gadd %d %d (pt_entries_%s G %s %s %s)"
+                    % (Nn, Nn, method, cnats(d), clist(mask, lambda b: "true" if b else "false"),
+                       centries(dense_entries(M))))
+            cases.append({"kind": "ptranspose_" + method, "expr": expr, "impl": impl,
+                          "nontrivial": len(d) >= 2 and 0 < sum(mask) < len(d),
+                          "info": {"dims": d, "mask": mask, "matrix": M, "fmt": fmt}})
+            bump("ptranspose:" + method)
+
     # ---- F. Kronecker product of square factors: tensor() vs kron_list
     for _ in range(12 * scale):
         d = rand_dims(rng, 4, 24)
@@ -537,6 +601,10 @@ def compare_case(c, val):
                 and val[2] is True and list(val[3]) == impl[3] and list(val[4]) == impl[4])
     if k == "reshuffle_sot":
         return impl[0] == "ok" and [list(val[0]), list(val[1])] == impl[1]
+    if k.startswith("ptranspose_"):
+        return impl[0] == "ok" and gmat(val) == impl[1]
+    if k == "private_tos_compound":
+        return impl[0] == "ok" and list(val) == impl[1]
     if k == "reshuffle_tos":
         return impl[0] == "ok" and list(val) == impl[1]
     if k == "kron":
@@ -1555,6 +1623,8 @@ def find_failing(kind, lst):
                 pr = {"kind": "operator-ket", "fmt": "Dense", "factor_dims": ds,
                       "factors": [[[[r * n + cc, r - cc] for cc in range(n)] for r in range(n)] for n in ns2]}
             tries.append(("reshuffle_composite", pr, None))
+        elif kind.startswith("ptranspose_"):
+            tries.append(("partial_transpose", info, None))
         elif kind == "kron":
             tries.append(("tensor", info, None))
         elif kind == "tensor_perm":
